@@ -1035,6 +1035,9 @@ func (t *itr) call(x *ast.CallExpr, pre *[]string, wantValue bool) string {
 		}
 		args = append(args, t.expr(a, pre))
 	}
+	if sig, ok := t.typeOf(x.Fun).(*types.Signature); ok && sig.Variadic() && x.Ellipsis == token.NoPos && len(x.Args) == sig.Params().Len()-1 {
+		args = append(args, "default") // a variadic parameter without arguments: the nil slice
+	}
 	recvVal := t.expr(sel.X, pre)
 	tn := named.Obj().Name()
 	if tn == "Mask" {
@@ -3036,7 +3039,7 @@ func genPools(repo string, tiny bool) (string, []string) {
 	for _, f := range []string{"Query.countEntities", "Query.Count", "Query.entityAt", "Query.EntityAt", "World.exchangeArch", "World.exchangeBatchNoNotify", "World.setRelationArch", "World.setRelationBatchNoNotify"} {
 		t.joinIf[f] = true
 	}
-	for _, f := range []string{"World.exchangeArch", "World.exchangeBatchNoNotify", "World.setRelationArch", "World.setRelationBatchNoNotify", "World.newEntities", "World.newEntityTarget", "World.copyTo", "World.closeQuery", "World.assign", "World.notifyQuery", "World.exchangeBatch", "World.setRelationBatch", "World.exchangeBatchQuery", "World.setRelationBatchQuery", "World.newEntitiesQuery"} {
+	for _, f := range []string{"World.exchangeArch", "World.exchangeBatchNoNotify", "World.setRelationArch", "World.setRelationBatchNoNotify", "World.newEntities", "World.newEntityTarget", "World.copyTo", "World.closeQuery", "World.assign", "World.notifyQuery", "World.exchangeBatch", "World.setRelationBatch", "World.exchangeBatchQuery", "World.setRelationBatchQuery", "World.newEntitiesQuery", "World.newEntitiesWithNoNotify", "World.newEntitiesWith", "World.newEntitiesWithQuery", "World.newEntityTargetWith"} {
 		t.usesEff[f] = true
 		t.joinIf[f] = true
 	}
@@ -3058,7 +3061,7 @@ func genPools(repo string, tiny bool) (string, []string) {
 	t.structs["EntityEvent"] = true
 	t.effExt["archetype.Remove"] = "archRemoveF"
 	t.nilChecks = map[string]bool{}
-	for _, f := range []string{"World.newEntitiesQuery", "World.exchangeBatchQuery", "World.setRelationBatchQuery", "World.exchangeBatch", "World.setRelationBatch", "World.notifyQuery", "World.assign", "World.closeQuery", "World.copyTo", "World.newEntityTarget", "World.newEntities", "World.exchangeArch", "World.exchangeBatchNoNotify", "World.setRelationArch", "World.setRelationBatchNoNotify", "Query.setArchetype", "Query.stepArchetype", "Query.nextArchetypeSimple", "Query.nextArchetypeFiltered", "Query.nextArchetypeBatch", "Query.nextBatch", "Query.nextNode", "Query.nextNodeOrArchetype", "Query.nextArchetype", "Query.Next",
+	for _, f := range []string{"World.newEntitiesWithNoNotify", "World.newEntitiesWith", "World.newEntitiesWithQuery", "World.newEntityTargetWith", "World.newEntitiesQuery", "World.exchangeBatchQuery", "World.setRelationBatchQuery", "World.exchangeBatch", "World.setRelationBatch", "World.notifyQuery", "World.assign", "World.closeQuery", "World.copyTo", "World.newEntityTarget", "World.newEntities", "World.exchangeArch", "World.exchangeBatchNoNotify", "World.setRelationArch", "World.setRelationBatchNoNotify", "Query.setArchetype", "Query.stepArchetype", "Query.nextArchetypeSimple", "Query.nextArchetypeFiltered", "Query.nextArchetypeBatch", "Query.nextBatch", "Query.nextNode", "Query.nextNodeOrArchetype", "Query.nextArchetype", "Query.Next",
 		"Query.countEntities", "Query.Count", "Query.entityAt", "Query.EntityAt", "World.findArchetypeSlow", "World.findOrCreateArchetypeSlow", "World.findOrCreateArchetype", "World.NewEntity", "World.notifyExchange", "World.exchange", "World.newEntitiesNoNotify", "World.removeEntities", "World.getExchangeMask", "World.exchangeNoNotify", "World.createArchetype", "World.setRelation", "World.RemoveEntity", "World.removeArchetype", "World.cleanupArchetype", "World.cleanupArchetypes", "World.createEntity", "World.createEntities", "World.Has", "World.HasUnchecked", "World.Mask",
 		"World.relationError", "World.checkRelation", "World.getRelation", "World.getRelationUnchecked"} {
 		t.nilChecks[f] = true
@@ -3180,7 +3183,7 @@ func genPools(repo string, tiny bool) (string, []string) {
 		"batchArchetypes.Get", "batchArchetypes.Len", "batchArchetypes.Add", "World.exchangeArch", "World.exchangeBatchNoNotify", "World.setRelationArch", "World.setRelationBatchNoNotify", "World.newEntities", "World.newEntityTarget", "World.copyTo", "World.notifyQuery", "World.exchangeBatch", "World.setRelationBatch", "World.closeQuery", "World.assign", "Query.countEntities", "Query.Count", "Query.entityAt", "Query.EntityAt",
 		"Query.checkNext", "Query.setArchetype", "Query.stepArchetype", "Query.nextArchetypeSimple", "Query.nextArchetypeFiltered",
 		"Query.nextArchetypeBatch", "Query.nextBatch", "Query.nextNode", "Query.nextNodeOrArchetype", "Query.nextArchetype", "Query.Next",
-		"newBatchQuery", "World.exchangeBatchQuery", "World.setRelationBatchQuery", "World.newEntitiesQuery",
+		"newBatchQuery", "World.exchangeBatchQuery", "World.setRelationBatchQuery", "World.newEntitiesQuery", "World.newEntitiesWithNoNotify", "World.newEntitiesWith", "World.newEntitiesWithQuery", "World.newEntityTargetWith",
 	}
 	// which functions need the uninterpreted-function parameters (directly or through a callee)
 	calls := map[string][]string{}
